@@ -262,10 +262,9 @@ fn queue_thresholds(what: &str, tier: &str) -> Vec<String> {
             v.push(format!("queue:cap=u:script={}:prog={}QRE0E0W:P=0", "e".repeat(140), e(140)));
             v.push(format!("queue:cap=u:script={}:prog={}:P=0", "p".repeat(130), e(135)));
             v.push(format!("queue:cap=u:script={}:h=0:prog={}W:P=0", "e".repeat(140), e(140)));
-            if th {
-                // many long metrics that panic (accumulated bytes)
-                v.push(format!("queue:cap=u:big=60000:script={}:prog={}QE0E0W:P=0", "p".repeat(1200), e(1200)));
-            }
+            // many long metrics that panic (accumulated bytes: 72 MB)
+            v.push(format!("queue:cap=u:big=60000:script={}:prog={}QE0E0W:P=0", "p".repeat(1200), e(1200)));
+            let _ = th;
         }
         "big" => {
             for big in [65507usize, 65508, 70000, 200_000] {
